@@ -15,7 +15,7 @@ from .c17 import GROUPS, gen_value, render, snapshot
 NB = 700
 FRAG = ["-h", "--help", "--", "-", "=", "%s", "%(value)s", "%", "{}", "{0}", "'", '"', "\\", "é", "ß", "→", "日本語", "\t", "  ", "lock", "apply",
         "cancel", "-r", "--msg", "--num", "1", "-1", "0x10", "1e3", "None", "()", "[", "(1,", "vt.ctl.hmod.quick", "os.system", "a.b.c", "*", "~", "$(x)",
-        "`x`", ";", "|", "&&", "\x7f", " ", "​", "😀", "-x", "--no-such-option", "--return", "until-closed", "flush"]
+        "`x`", ";", "|", "&&", "==SUPPRESS==", "\x7f", " ", "​", "😀", "-x", "--no-such-option", "--return", "until-closed", "flush"]
 PRINTABLE = [chr(c) for c in range(33, 127)]
 
 
@@ -53,7 +53,7 @@ def gen_line(d: D, table: dict, names: List[str]) -> dict:
         elif variant == 2:
             text = base + " --no-such-option" + d.pick(["", " 3"])
         elif variant == 3 and any(p in ("task_ids", "num", "value") for p, _ in params):
-            text = base + " " + d.pick(["x", "1.5", "one", "0x1", "1,2"])     # ill-typed int
+            text = base + " " + d.pick(["x", "1.5", "one", "0x1", "1,2", "==SUPPRESS==", "None", "1_0_"])     # ill-typed int
         elif variant == 4 and any(p == "func" for p, _ in params):
             tail = " []" if cmd in ("map", "starmap", "doublestarmap") else ""
             text = base + " " + d.pick(["nomod_zz.fn", "vt.ctl.hmod.nope", "vt.ctl.nomod.f", "nomod_zz", "..", "a..b"]) + tail   # conversion failure
